@@ -63,8 +63,9 @@ LEVEL = 'model_checking'
 T0 = time.time()
 # wall clock plan (seconds after start): the replay stops taking new cases at REPLAY_END (but always gets REPLAY_MIN),
 # so that only the coverage -- never a verdict -- depends on the load of the machine
-PLAN = dict(quick=dict(nproc=5, ntlc=11, replay_end=60, replay_min=14, ntab=4),
-            thorough=dict(nproc=10, ntlc=8, replay_end=600, replay_min=150, ntab=6))
+# replay_cpu: CPU seconds of replay per worker process (CPU time, not wall-clock time: the coverage must not depend on the machine load)
+PLAN = dict(quick=dict(nproc=10, ntlc=11, replay_cpu=30, ntab=4),
+            thorough=dict(nproc=12, ntlc=8, replay_cpu=420, ntab=6))
 # several runs side by side (mutation testing with VF_REPO / VF_OUT) need scratch directories of their own
 RUNTAG = 'c12' + os.environ.get('VF_C12_TAG', '')
 WORKROOT = os.path.join(tlc.WORK, RUNTAG)
@@ -278,7 +279,7 @@ def _work(task):
     seed = _STATE['seed']
     with treelog.set(treelog.FilterLog(treelog.StdoutLog(), minlevel=treelog.proto.Level.error)):
         for case in cases:
-            if not core and time.time() > _STATE['deadline']:
+            if not core and time.process_time() > _STATE['deadline']:     # a forked worker starts at zero CPU seconds
                 skipped += 1
                 continue
             try:
@@ -384,7 +385,7 @@ def replay(rep, cases, preds, budget):
         for fam in list(per):
             if per[fam]:
                 tasks.append(per[fam].pop(0))
-    _STATE.update(preds=preds, deadline=time.time() + budget, seed=rep.seed)
+    _STATE.update(preds=preds, deadline=budget, seed=rep.seed)
     import nutils.mesh  # noqa: F401  (imported before the fork)
     ctx = multiprocessing.get_context('fork')
     with ctx.Pool(PLAN[rep.tier]['nproc']) as pool:
@@ -464,7 +465,7 @@ def run(rep):
     jobs = plan(rep.tier, rep.seed)
     emitted = generate(rep, jobs)
     plan_t = PLAN[rep.tier]
-    budget = float(os.environ.get('VF_C12_BUDGET') or max(plan_t['replay_min'], T0 + plan_t['replay_end'] - time.time()))
+    budget = float(os.environ.get('VF_C12_BUDGET') or plan_t['replay_cpu'])
     rep.extra['replay_budget_s'] = round(budget, 1)
     limits = dict(struct=420, nodal=260, hier=160, multi=90, merge=4000) if quick else dict(struct=5000, nodal=3000, hier=2000, multi=800, merge=40000)
     cases, preds, nleaves = choose(emitted, rng, limits)
